@@ -65,6 +65,10 @@ def _run_scenario(idx: int) -> Tuple[int, List[Dict[str, Any]], Optional[str], f
             jasmrt.restore_all()
         from vf import instrument, rt
         info = {"rewrites": {k: v for k, v in instrument.REWRITES.items() if any(v.values())}, "rt": dict(rt.COUNTS)}
+        if not obs:
+            # vacuity guard per scenario: a contract that generates no obligation on this tree decided nothing
+            obs = [Ob(f"{sc.ident}:RUN", sc.func, "RUN", "the contract scenario generates at least one obligation on this tree", UNDECIDED,
+                      list(sc.props), "pyvc", time.time() - t, "", "unsupported: the scenario produced no obligation (every path skipped)")]
         return idx, [o.to_json() for o in obs], None, time.time() - t, info
     except core.CheckerError as e:
         if "payload variants diverge" in str(e):
